@@ -51,6 +51,8 @@ def c13_cases(tier):
             if nth == 1:
                 cases.append(dict(history="executor-clean", ending=f"kill_at_{where}:{nth}"))
     cases.append(dict(history="primitives", ending="sigkill", release=False))
+    cases.append(dict(history="primitives", ending="sigkill", release=False, werror=True))
+    cases.append(dict(history="executor-live", ending="sigkill", werror=True))
     cases.append(dict(history="primitives", ending="normal", release=False))
     return cases
 
@@ -58,12 +60,14 @@ def c13_cases(tier):
 def run_c13(tier, nproc=6):
     cases = c13_cases(tier)
     with cf.ThreadPoolExecutor(nproc) as tp:
-        rs = list(tp.map(lambda c: runner.run("sem", dict(c, watchdog=60), None, timeout=80,
-                                              module="vf.real.treescn", post=sem_post), cases))
+        rs = list(tp.map(lambda c: runner.run(
+            "sem", dict(c, watchdog=60), None, timeout=80, module="vf.real.treescn", post=sem_post,
+            env_extra={"PYTHONWARNINGS": "error::UserWarning"} if c.get("werror") else None), cases))
     viol = []
     samples = []
     for c, r in zip(cases, rs):
-        tag = f"{c['history']}:{c['ending']}" + (":unreleased" if c.get("release") is False else "")
+        tag = f"{c['history']}:{c['ending']}" + (":unreleased" if c.get("release") is False else "") \
+            + (":Werror" if c.get("werror") else "")
         res, post = r["result"], r["post"]
         if c["ending"].startswith("kill_at_") and r["status"] == "ok" and post and "left" in post:
             if r["rc"] != -9:
